@@ -96,7 +96,7 @@ Q = {
     "is_quad": ("border", lambda m, c: m.is_quad(), lambda r, s: all(len(f) == 4 for f in r.faces), "bool"),
 }
 FAMILY = {k: v[0] for k, v in Q.items()}
-BACKGROUND = ["bg_euler", "bg_degree", "bg_border_cycle", "bg_str"]
+BACKGROUND = ["bg_euler", "bg_degree", "bg_border_cycle", "bg_str", "bg_other_mesh"]
 
 
 def build_mesh(world):
@@ -151,13 +151,13 @@ class C01(Sim):
             "arities), sort mode, first-touch order of the lazy caches); non-trivial = >= 3 judged queries from >= 2 families")
     FAULT_KINDS = ["cache_drop", "bad_index"]
     PROBES = ["border_vertex_ring", "interior_vertex_ring", "sort_off", "query_after_drop", "miss_query", "polygon_face",
-              "genus>0", "multi_component", "fresh_single_query", "reordered_pass", "isolated_vertex"]
+              "genus>0", "multi_component", "fresh_single_query", "reordered_pass", "isolated_vertex", "second_surface", "sort_switched"]
     QUICK_RUNS = 6000
     THOROUGH_RUNS = 600000
     BLOCK = 50
     ASSUMPTIONS = ["query arguments are valid element indices (misses are non-edges / non-faces / non-incident pairs, never out-of-range ids)",
                    "no two faces have the same vertex set (face_id is keyed by the vertex set)",
-                   "config.sort_neighborhoods is fixed per run (it is read when the cache is built)",
+                   "config.sort_neighborhoods is switched only together with a drop of the connectivity caches (it applies when they are computed)",
                    "rotational order convention of DESIGN.md Appendix A (pinned by tests/test_surfaces.py::test_sorted_neighborhood)"]
     COMPONENTS = {"real": ["mouette.mesh.datatypes.surface/linear", "mouette.mesh.mesh_data", "mouette.attributes (background)", "mouette.processing.border (background)"],
                   "stub": ["none (no I/O, clock or PRNG in these accessors)"]}
@@ -197,6 +197,7 @@ class C01(Sim):
         w = cfg["world"]
         self.ref = RefSurface(len(w["points"]), w["faces"], [tuple(e) for e in self.mesh.edges])
         self._check_edge_list()
+        self.others = []
         self.judged = []  # (ev) of judged queries in order
         self.fams = set()
         self.first_touch = []
@@ -284,6 +285,11 @@ class C01(Sim):
             return [r.below(len(ref.edges))]
         return []
 
+    @property
+    def sort(self):
+        """the neighbourhood-sorting mode in force (a run may switch it, together with a cache drop); helpers built by other checks have only cfg"""
+        return getattr(self, "_sort", None) if getattr(self, "_sort", None) is not None else bool(self.cfg["sort"])
+
     # ------------------------------------------------------------------ admissible events (replays on a shrunk world drop the others)
     ARGKIND = {**{q: "v" for q in ("v2v", "v2f", "v2c", "v2e", "is_vertex_on_border")},
                **{q: "c" for q in ("next", "prev", "opp", "c2he", "c2f", "cvert")},
@@ -340,7 +346,7 @@ class C01(Sim):
             args[r.below(len(args))] = 10 ** 6 + r.below(5)
             return {"c": c, "op": "bad_index", "q": q, "args": args}
         if c == "dropper":
-            return {"c": c, "op": r.choice(["drop_connectivity", "drop_boundary", "drop_both"])}
+            return {"c": c, "op": r.choice(["drop_connectivity", "drop_boundary", "drop_both", "drop_flip_sort"])}
         if c == "background":
             return {"c": c, "op": r.choice(BACKGROUND)}
         qs = [q for q in sorted(Q) if FAMILY[q] == c and q not in cfg["ops_off"]] or [q for q in sorted(Q) if FAMILY[q] == c]
@@ -365,7 +371,7 @@ class C01(Sim):
         if not out.ok:
             self.exc_violation(clause_prefix + "query-never-fails", q, out, ac, "%s%r raised on valid arguments" % (q, tuple(args)))
         exp = expf(self.ref, self, *args)
-        why = judge(q, mode, out.value, exp, bool(self.cfg["sort"]))
+        why = judge(q, mode, out.value, exp, self.sort)
         if why is not None:
             self.violation(clause_prefix + "agrees-with-face-list", q, "wrong_value", q, ac, "%s%r = %r; %s" % (q, tuple(args), canon(out.value), why))
         return out.value
@@ -375,7 +381,7 @@ class C01(Sim):
         if q in ("v2v", "v2f", "v2c", "v2e"):
             b = args[0] in self.border_v
             self.probes["border_vertex_ring" if b else "interior_vertex_ring"] += 1
-            return ("border" if b else "interior") + ("" if self.cfg["sort"] else "/unsorted")
+            return ("border" if b else "interior") + ("" if self.sort else "/unsorted")
         if q in ("he2c", "direct_face", "direct_face_inds", "edge_to_faces", "edge_id", "is_edge_on_border"):
             u, v = args
             if not ref.is_edge(u, v):
@@ -402,8 +408,13 @@ class C01(Sim):
             self.faults["bad_index"] += 1
             self.dropped = self.dropped  # (caches may or may not have been built by the failing call)
             return o.brief()
+        if op == "drop_flip_sort":
+            # the sorting switch is changed and the connectivity dropped: everything computed from now on follows the new mode
+            self._sort = not self.sort
+            self.M.config.sort_neighborhoods = self._sort
+            self.probes["sort_switched"] += 1
         if op.startswith("drop_"):
-            if op in ("drop_connectivity", "drop_both"):
+            if op in ("drop_connectivity", "drop_both", "drop_flip_sort"):
                 o = call(mesh.connectivity.clear)
                 if not o.ok:
                     self.exc_violation("cache-drop", op, o)
@@ -415,7 +426,19 @@ class C01(Sim):
             return "dropped"
         if op.startswith("bg_"):
             M = self.M
-            fn = {"bg_euler": lambda: M.attributes.euler_characteristic(mesh),
+            def other_mesh():
+                # ANOTHER surface is built and queried in the same process (kept alive): nothing of it may show in the mesh under test
+                from mouette.mesh.mesh_data import RawMeshData
+                d = RawMeshData()
+                d.vertices += [[0.0, 0.0, 5.0], [1.0, 0.0, 5.0], [1.0, 1.0, 5.0], [0.0, 1.0, 5.0], [2.0, 0.5, 5.0]]
+                d.faces += [[3, 0, 1], [1, 2, 3], [2, 1, 4]]
+                o_ = M.mesh.SurfaceMesh(d)
+                self.others.append(o_)
+                self.probes["second_surface"] += 1
+                return (o_.connectivity.vertex_to_vertices(1), o_.connectivity.face_to_faces(1), list(o_.boundary_edges), o_.is_vertex_on_border(4),
+                        o_.connectivity.edge_id(1, 3), o_.connectivity.face_id(1, 2, 3))
+            fn = {"bg_other_mesh": other_mesh,
+                  "bg_euler": lambda: M.attributes.euler_characteristic(mesh),
                   "bg_degree": lambda: M.attributes.degree(mesh),
                   "bg_border_cycle": lambda: M.processing.border.extract_border_cycle_all(mesh),
                   "bg_str": lambda: str(mesh)}[op]
